@@ -103,6 +103,16 @@ def resolve(fn, text, depth=0):
 
 # ----------------------------------------------------------------------------- path interpretation
 
+# the functions of the module at the pinned commit; any other function defined in the file is a helper that is
+# interpreted inside its callers (its facts, calls, assignments and result become part of the caller's path)
+PINNED = {"_whawty_logf", "_whawty_parse_args", "_whawty_ctx_init", "_whawty_get_password", "_whawty_cleanup", "_whawty_open_socket",
+          "_whawty_write_data", "_whawty_send_request_part", "_whawty_send_request", "_whawty_read_data", "_whawty_recv_response",
+          "_whawty_check_password", "pam_sm_authenticate", "pam_sm_setcred"}
+FUNCS = {}          # name -> Func (set by run_rules before enumeration)
+_PATHS = {}         # memo: helper name -> paths
+_BUSY = set()
+INLINED = set()
+
 class Path:
     def __init__(self, fn):
         self.fn = fn
@@ -110,24 +120,51 @@ class Path:
         self.env = {}       # local variable -> resolved value expression (after substitution)
         self.facts = []     # (expr, truth)
         self.events = []    # call expressions in order: (callee, [args], full)
+        self.assigns = []   # (lvalue, value) of assignments to struct members / array cells
+        self.arrays = {}    # local array with initialiser -> element expressions
+        self.callvals = {}  # text of a helper call -> the value it returned on this path
+        self.hdrvisits = 0  # how often the innermost loop header decided by constants has been entered (unrolling)
         self.ret = None     # returned expression (substituted), '' for plain return
         self.rawret = None
 
+    def copy(self):
+        q = Path(self.fn)
+        q.blocks = list(self.blocks)
+        q.env, q.facts, q.events = dict(self.env), list(self.facts), list(self.events)
+        q.assigns, q.arrays, q.callvals = list(self.assigns), dict(self.arrays), dict(self.callvals)
+        q.ret, q.rawret = self.ret, self.rawret
+        q.hdrvisits = self.hdrvisits
+        return q
+
     def subst(self, e):
+        # results of helpers interpreted on this path
+        for k in sorted(self.callvals, key=len, reverse=True):
+            if k in e:
+                e = e.replace(k, self.callvals[k])
         # replace local variables by their current values (word boundaries; longest first)
         for v in sorted(self.env, key=len, reverse=True):
             val = self.env[v]
             e = re.sub(r'(?<![A-Za-z0-9_>.&])(?<!sizeof \()' + re.escape(v) + r'(?![A-Za-z0-9_(])', lambda _: val, e)
-        return e
+        for k in sorted(self.callvals, key=len, reverse=True):
+            if k in e:
+                e = e.replace(k, self.callvals[k])
+        # elements of local arrays with a constant index; sizeof(arr)/sizeof(arr[0])
+        for a, els in self.arrays.items():
+            e = re.sub(r'sizeof \(%s\) / sizeof \(%s\[0\]\)' % (re.escape(a), re.escape(a)), str(len(els)), e)
+            def el(mm, els=els):
+                i = const_int(mm.group(1))
+                return els[i] if i is not None and 0 <= i < len(els) else mm.group(0)
+            e = re.sub(re.escape(a) + r'\[([^\[\]]+)\]', el, e)
+        return fold(e)
 
 CALL = re.compile(r'^([A-Za-z_][A-Za-z0-9_]*)\((.*)\)$')
 
 def split_args(s):
     args, depth, cur = [], 0, ''
     for ch in s:
-        if ch in '([':
+        if ch in '([{':
             depth += 1
-        elif ch in ')]':
+        elif ch in ')]}':
             depth -= 1
         if ch == ',' and depth == 0:
             args.append(cur.strip())
@@ -138,27 +175,164 @@ def split_args(s):
         args.append(cur.strip())
     return args
 
+def const_int(e):
+    """value of an expression made of integer literals, parentheses and + - * / only."""
+    t = e.strip()
+    if not re.fullmatch(r'[0-9()+\-*/ ]+', t) or not re.search(r'\d', t):
+        return None
+    try:
+        v = eval(t.replace('/', '//'), {"__builtins__": {}}, {})
+    except Exception:
+        return None
+    return v if isinstance(v, int) else None
+
+def const_cond(e):
+    """truth value of a comparison between constant integer expressions (None if not constant)."""
+    t = norm(e)
+    m = re.fullmatch(r'(.+?) (<=|>=|==|!=|<|>) (.+)', t)
+    if m:
+        x, y = const_int(m.group(1)), const_int(m.group(3))
+        if x is None or y is None:
+            return None
+        return {'<': x < y, '<=': x <= y, '>': x > y, '>=': x >= y, '==': x == y, '!=': x != y}[m.group(2)]
+    v = const_int(t)
+    if v is not None:
+        return v != 0
+    if t.startswith('!'):
+        v = const_int(t[1:])
+        if v is not None:
+            return v == 0
+    return None
+
+def fold(e):
+    """(0 ? a : b) -> b, (1 ? a : b) -> a for literal conditions (after parameter substitution)."""
+    for _ in range(8):
+        m = re.search(r'(?<![A-Za-z0-9_)\]])(?:\(([01])\)|([01])) \? ', e)
+        if not m:
+            break
+        lit = m.group(1) or m.group(2)
+        start = m.start()
+        i = m.end()
+        depth, colon = 0, -1
+        j = i
+        while j < len(e):
+            ch = e[j]
+            if ch in '([':
+                depth += 1
+            elif ch in ')]':
+                if depth == 0:
+                    break
+                depth -= 1
+            elif ch == ',' and depth == 0:
+                break
+            elif e.startswith(' : ', j) and depth == 0 and colon < 0:
+                colon = j
+            j += 1
+        if colon < 0:
+            break
+        a, b = e[i:colon], e[colon + 3:j]
+        e = e[:start] + (a if lit == '1' else b) + e[j:]
+    return e
+
+def helper_paths(name):
+    if name in _PATHS:
+        return _PATHS[name]
+    if name in _BUSY:
+        return None
+    _BUSY.add(name)
+    try:
+        ps = [q for q in enum_paths(FUNCS[name]) if q.ret is not None]
+    finally:
+        _BUSY.discard(name)
+    _PATHS[name] = ps
+    return ps
+
+def inlinable(name):
+    return name in FUNCS and name not in PINNED and FUNCS[name].entry is not None
+
+def rename_params(fn, args, text):
+    for prm, arg in sorted(zip(fn.params, args), key=lambda x: -len(x[0])):
+        a = arg if re.fullmatch(r'[A-Za-z0-9_>.\-"]+|-?\d+', arg) else '(' + arg + ')'
+        text = re.sub(r'(?<![A-Za-z0-9_>.])' + re.escape(prm) + r'(?![A-Za-z0-9_])', lambda _: a, text)
+    return fold(text)
+
+def add_fact(facts, text, truth):
+    """False if the fact contradicts the path."""
+    cc = const_cond(text)
+    if cc is not None:
+        return cc == truth
+    t0 = norm(text)
+    if not re.search(r'[A-Za-z_][A-Za-z0-9_]*\(', t0):
+        # a pure expression cannot be true and false on one path (two calls with the same text can differ)
+        for f, t in facts:
+            if norm(f) == t0 and t != truth:
+                return False
+    facts.append((text, truth))
+    return True
+
 def enum_paths(fn, limit=20000):
     paths = []
-    def dfs(bid, path, state):
+
+    def apply_helper(P, name, args, full):
+        """fork P over the paths of helper `name`; returns the list of continued states (or None if not inlinable)."""
+        if not inlinable(name):
+            return None
+        qs = helper_paths(name)
+        if qs is None:
+            return None
+        INLINED.add(name)
+        h = FUNCS[name]
+        out = []
+        # an expression function: no calls, same value on every path -> plain substitution, no fork
+        vals = {rename_params(h, args, q.ret) for q in qs}
+        if len(vals) == 1 and all(not q.events and not q.assigns for q in qs):
+            P2 = P.copy()
+            P2.callvals[full] = '(' + norm(vals.pop()) + ')'
+            return [P2]
+        for q in qs:
+            P2 = P.copy()
+            ok = True
+            for f, t in q.facts:
+                if not add_fact(P2.facts, rename_params(h, args, f), t):
+                    ok = False
+                    break
+            if not ok:
+                continue
+            for (cal, cargs, cfull) in q.events:
+                P2.events.append((cal, [rename_params(h, args, x) for x in cargs], rename_params(h, args, cfull)))
+            for (lv, rv) in q.assigns:
+                P2.assigns.append((rename_params(h, args, lv), rename_params(h, args, rv)))
+            v = rename_params(h, args, q.ret) if q.ret else ''
+            P2.callvals[full] = v if CALL.match(v) else '(' + v + ')'
+            out.append(P2)
+        return out
+
+    budget = [0]
+
+    def run_block(bid, start, P):
         if len(paths) >= limit:
             return
+        budget[0] += 1
+        if budget[0] > 400000:
+            raise RuntimeError("path budget exhausted in %s (more than 400000 block visits)" % fn.name)
         blk = fn.blocks[bid]
-        env, facts, events = dict(state[0]), list(state[1]), list(state[2])
-        P = Path(fn)
-        P.env, P.facts, P.events = env, facts, events
-        P.blocks = path + [bid]
+        idxs = sorted(blk.stmts)
         ret = None
-        for i in sorted(blk.stmts):
+        for pos in range(start, len(idxs)):
+            i = idxs[pos]
             raw = blk.stmts[i]
-            # only top-level statements matter: a statement is top-level if no other statement/terminator of the block refers to it
             txt = resolve(fn, raw)
             m = re.match(r'^return(?: (.*))?;$', txt)
             if m:
                 ret = P.subst(m.group(1)) if m.group(1) else ''
                 P.rawret = m.group(1) or ''
                 continue
-            # declaration with initialiser:  T name = expr;   /  T name[N];
+            # array with initialiser:  T name[] = {a, b, c};
+            m = re.match(r'^.*?\b([A-Za-z_][A-Za-z0-9_]*)\[\d*\] = \{(.*)\};$', txt)
+            if m:
+                P.arrays[m.group(1)] = [P.subst(x) for x in split_args(m.group(2))]
+                continue
+            # declaration with initialiser:  T name = expr;
             m = re.match(r'^[A-Za-z_][A-Za-z0-9_ \*]*?\b([A-Za-z_][A-Za-z0-9_]*) = (.*);$', txt)
             if m and '==' not in txt.split('=')[0]:
                 P.env[m.group(1)] = '(' + P.subst(m.group(2)) + ')' if not CALL.match(P.subst(m.group(2))) else P.subst(m.group(2))
@@ -172,20 +346,29 @@ def enum_paths(fn, limit=20000):
             if m:
                 P.env[m.group(1)] = '(' + P.subst(m.group(1)) + ' + ' + P.subst(m.group(2)) + ')'
                 continue
+            m = re.match(r'^\+\+([A-Za-z_][A-Za-z0-9_]*)$', txt) or re.match(r'^([A-Za-z_][A-Za-z0-9_]*)\+\+$', txt)
+            if m and not is_subexpr(blk, i):
+                cur = P.subst(m.group(1))
+                v = const_int(cur + ' + 1')
+                P.env[m.group(1)] = str(v) if v is not None else '(' + cur + ' + 1)'
+                continue
+            m = re.match(r'^([A-Za-z_][A-Za-z0-9_]*(?:(?:\.|->)[A-Za-z_][A-Za-z0-9_]*|\[[^\]]*\])+) = (.*)$', txt)
+            if m and not txt.endswith(';') and not is_subexpr(blk, i):
+                P.assigns.append((m.group(1), P.subst(m.group(2))))
+                continue
             is_call_stmt = re.match(r'^\[B\d+\.\d+\]\(.*\)$', raw) is not None
             m = CALL.match(txt) if is_call_stmt else None
-            if m and not is_subexpr(blk, i):
+            if m:
                 full = P.subst(txt)
                 mm = CALL.match(full)
-                P.events.append((m.group(1), split_args(mm.group(2)) if mm else [], full))
-                for v in re.findall(r'&\(?([A-Za-z_][A-Za-z0-9_]*)\)?', full):
-                    P.env.pop(v, None)
-                continue
-            if is_call_stmt and CALL.match(txt) and is_subexpr(blk, i):
+                cargs = split_args(mm.group(2)) if mm else []
+                conts = apply_helper(P, m.group(1), cargs, full) if mm else None
+                if conts is not None:
+                    for P2 in conts:
+                        run_block(bid, pos + 1, P2)
+                    return
                 # calls used as operands are recorded too (e.g. strlen(part) inside an initialiser, select(...) in a decl)
-                full = P.subst(txt)
-                mm = CALL.match(full)
-                P.events.append((mm.group(1), split_args(mm.group(2)), full))
+                P.events.append((m.group(1), cargs, full))
                 for v in re.findall(r'&\(?([A-Za-z_][A-Za-z0-9_]*)\)?', full):
                     P.env.pop(v, None)
         if ret is not None or bid == fn.exit:
@@ -196,40 +379,84 @@ def enum_paths(fn, limit=20000):
         if not succs:
             paths.append(P)
             return
-        cond = None
-        if blk.term and len(succs) == 2:
-            t = blk.term
-            m = re.match(r'^(?:if|while|for \(.*\)|do ... while)?\s*(.*)$', t)
-            body = t
-            if t.startswith('if '):
-                body = t[3:]
-            elif t.startswith('while '):
-                body = t[6:]
-            elif t.startswith('for ('):
-                body = ''
-            m2 = re.match(r'^(\[B\d+\.\d+\]) (&&|\|\|) \.\.\.$', body)
-            m3 = re.match(r'^(\[B\d+\.\d+\]) (&&|\|\|) (\[B\d+\.\d+\])$', body)
-            m4 = re.match(r'^(\[B\d+\.\d+\]) \? \.\.\. : \.\.\.$', body)
-            if m2:
-                cond = resolve(fn, m2.group(1))
-            elif m3:
-                # the operand evaluated in this block decides
-                refs = [m3.group(1), m3.group(3)]
-                mine = [r for r in refs if int(REF.match(r).group(1)) == bid]
-                cond = resolve(fn, mine[-1] if mine else m3.group(3))
-            elif m4:
-                cond = resolve(fn, m4.group(1))
-            elif body:
-                cond = resolve(fn, body)
+        cond = block_cond(fn, blk)
+        decided = None
+        if cond is not None and len(succs) == 2:
+            decided = const_cond(P.subst(cond))
+            if decided is not None:
+                P.hdrvisits = P.blocks.count(bid)
         for k, s in enumerate(succs):
-            if s is None or s in P.blocks:
+            if s is None:
                 continue
-            nf = list(P.facts)
-            if cond is not None and len(succs) == 2:
-                nf.append((P.subst(cond), k == 0))
-            dfs(s, P.blocks, (P.env, nf, P.events))
-    dfs(fn.entry, [], ({}, [], []))
+            if decided is not None and (k == 0) != decided:
+                continue
+            if s in P.blocks and not (P.blocks.count(s) < P.hdrvisits or revisitable(fn, s, P)):
+                continue
+            P2 = P.copy()
+            if cond is not None and len(succs) == 2 and decided is None:
+                if not add_fact(P2.facts, P2.subst(cond), k == 0):
+                    continue
+            P2.blocks = P.blocks + [s]
+            run_block(s, 0, P2)
+
+    P0 = Path(fn)
+    P0.blocks = [fn.entry]
+    run_block(fn.entry, 0, P0)
     return paths
+
+def block_cond(fn, blk):
+    cond = None
+    succs = blk.succs
+    if blk.term and len(succs) == 2:
+        t = blk.term
+        body = t
+        if t.startswith('if '):
+            body = t[3:]
+        elif t.startswith('while '):
+            body = t[6:]
+        elif t.startswith('for ('):
+            mm = re.match(r'^for \(\.\.\.; (\[B\d+\.\d+\]); \.\.\.\)$', t)
+            body = mm.group(1) if mm else ''
+        m2 = re.match(r'^(\[B\d+\.\d+\]) (&&|\|\|) \.\.\.$', body)
+        m3 = re.match(r'^(\[B\d+\.\d+\]) (&&|\|\|) (\[B\d+\.\d+\])$', body)
+        m4 = re.match(r'^(\[B\d+\.\d+\]) \? \.\.\. : \.\.\.$', body)
+        if m2:
+            cond = resolve(fn, m2.group(1))
+        elif m3:
+            # the operand evaluated in this block decides
+            refs = [m3.group(1), m3.group(3)]
+            mine = [r for r in refs if int(REF.match(r).group(1)) == blk.id]
+            cond = resolve(fn, mine[-1] if mine else m3.group(3))
+        elif m4:
+            cond = resolve(fn, m4.group(1))
+        elif body:
+            cond = resolve(fn, body)
+    return cond
+
+def revisitable(fn, bid, P):
+    """a block may be entered again only inside a loop whose condition is decided by constants on this path (a loop
+    over a local array or with constant bounds is unrolled); at most 16 visits."""
+    if P.blocks.count(bid) >= 16:
+        return False
+    # find the deciding condition: this block's own, or the one of the loop header it jumps to unconditionally
+    seen = set()
+    b = fn.blocks[bid]
+    while b is not None and b.id not in seen:
+        seen.add(b.id)
+        # the condition must be computed from values that are current now: the block evaluating it may only read
+        for raw in b.stmts.values():
+            t = resolve(fn, raw)
+            t = re.sub(r'sizeof ?\([^()]*\)', 'SZ', t)
+            if re.search(r'(?<![=!<>])=(?!=)|\+\+|--', t) or re.search(r'(?<![A-Za-z0-9_])[A-Za-z_][A-Za-z0-9_]*\(', t):
+                return False
+        cond = block_cond(fn, b)
+        if cond is not None:
+            return const_cond(P.subst(cond)) is not None
+        nxt = [s for s in b.succs if s is not None]
+        if len(nxt) != 1:
+            return False
+        b = fn.blocks.get(nxt[0])
+    return False
 
 def is_subexpr(blk, idx):
     ref = '[B%d.%d]' % (blk.id, idx)
@@ -409,7 +636,9 @@ def run_rules(c, funcs, src_text, thorough):
             c.undecided("C20.0", "anchor:" + n, "pam/pam_whawty.c", "UNRESOLVED: function %s not found in the CFG dump" % n)
     if any(n not in funcs for n in need):
         return
-    P = {n: enum_paths(funcs[n]) for n in funcs}
+    FUNCS.clear(); FUNCS.update(funcs); _PATHS.clear(); INLINED.clear()
+    P = {n: enum_paths(funcs[n]) for n in funcs if not inlinable(n)}
+    c.stats["helpers_interpreted_inline"] = len(INLINED)
     c.stats["functions"] = len(funcs)
     c.stats["cfg_blocks"] = sum(len(f.blocks) for f in funcs.values())
     c.stats["cfg_paths_enumerated"] = sum(len(v) for v in P.values())
@@ -631,13 +860,13 @@ def run_rules(c, funcs, src_text, thorough):
                             bad.append("select() is called without a timeout structure: %s" % sel[2])
                         tested_neg = any(flat(f) == flat(sel[2]) + "<0" and not t for f, t in p.facts)
                         tested_zero = any(flat(f) == "!" + flat(sel[2]) and not t for f, t in p.facts)
-                        if not (tested_neg and tested_zero):
+                        positive = any((flat(f) == flat(sel[2]) + "<=0" and not t) or (flat(f) == flat(sel[2]) + ">0" and t) for f, t in p.facts)
+                        if not ((tested_neg and tested_zero) or positive):
                             bad.append("%s() reached without select() > 0 having been established (error and timeout must leave)" % prim)
             # select returned 0 -> function returns
-        fn = funcs[fname]
-        src = "".join(resolve(fn, s) + "\n" for b in fn.blocks.values() for s in b.stmts.values())
-        if not re.search(r'tv\.tv_sec = timeout', src):
-            bad.append("the select timeout is not taken from the timeout parameter")
+        for p in P[fname]:
+            if any(e[0] == "select" for e in p.events) and not any(flat(lv).endswith("tv.tv_sec") and norm(rv) == "timeout" for lv, rv in p.assigns):
+                bad.append("the select timeout is not taken from the timeout parameter")
         zero_leaves = any(p.ret is not None and any(("select(" in f and ((norm(f).startswith("!") and t))) for f, t in p.facts) for p in P[fname])
         if not zero_leaves:
             bad.append("a zero return of select() (timeout) does not leave the function")
